@@ -51,7 +51,11 @@ func exprText(toks []string, rng *rand.Rand) string {
 		case "F": // float literal n/d with a finite decimal expansion
 			n, _ := strconv.Atoi(toks[i+1])
 			d, _ := strconv.Atoi(toks[i+2])
-			words = append(words, strconv.FormatFloat(float64(n)/float64(d), 'f', -1, 64))
+			lit := strconv.FormatFloat(float64(n)/float64(d), 'f', -1, 64)
+			if !strings.Contains(lit, ".") {
+				lit += ".0" // a float literal stays a float literal
+			}
+			words = append(words, lit)
 			i += 2
 		case "S":
 			words = append(words, `"`+toks[i+1]+`"`)
